@@ -9,6 +9,7 @@ import (
 	"go.miragespace.co/specter/spec/chord"
 	"go.miragespace.co/specter/spec/protocol"
 	"go.miragespace.co/specter/spec/rpc"
+	"go.miragespace.co/specter/util/verifhook"
 
 	"go.uber.org/zap"
 	"golang.org/x/sync/errgroup"
@@ -23,6 +24,7 @@ func kvMiddleware[V any](
 ) (V, error) {
 	var zeroV V
 	id := chord.Hash(key)
+	verifhook.At("kv:enter", n.ID())
 	reqCtx := rpc.GetContext(ctx)
 	// if it is a replication request, bypass ownership checks
 	if reqCtx.GetRequestTarget() == protocol.Context_KV_REPLICATION {
@@ -50,6 +52,7 @@ func kvMiddleware[V any](
 	)
 
 	// local KV
+	verifhook.At("kv:local", n.ID())
 	n.surrogateMu.RLock()
 	defer n.surrogateMu.RUnlock()
 
